@@ -522,7 +522,7 @@ def map_fn(op):
     """The element-wise function an op applies to the stored values (replacing them `map:`, in place `imap:`,
     item by item `iset:`), or None."""
     if isinstance(op, str):
-        for pre in ("map:", "imap:", "iset:"):
+        for pre in ("map:", "imap:", "iset:", "uout:", "islice:"):
             if op.startswith(pre):
                 return op[len(pre):]
     return None
@@ -570,15 +570,15 @@ def ops_valid(case, xs):
             if enc not in ("const", "func") or not op[4:].isdigit() or int(op[4:]) > 200000:
                 return False
             continue
-        if op in ("imap:double", "imap:inc"):
+        if op in ("imap:double", "imap:inc", "uout:double", "uout:inc"):
             if enc == "func" or case.get("container", "list").startswith("array:") or not f_applicable("double", cur) \
                     or any(v is None for v in cur):
                 return False
-            cur = [py_f(op[5:], x) for x in cur]
+            cur = [py_f(map_fn(op), x) for x in cur]
             continue
-        if op.startswith("iset:"):
-            # a dtype-preserving function written into the stored array item by item
-            f = op[5:]
+        if op.startswith(("iset:", "islice:")):
+            # a dtype-preserving function written into the stored array item by item / through a slice
+            f = map_fn(op)
             if enc == "func" or "mix" in case or case.get("container", "list").startswith("array:") \
                     or f not in ("double", "upper", "not") or not f_applicable(f, cur):
                 return False
@@ -669,7 +669,9 @@ def build_input(case):
     return numpy.array(vs, dtype=cont[6:])
 
 
-def build_column(schema, case, calls=None):
+def build_column(schema, case, calls=None, inp=None):
+    """`inp`: a one-element list holding the input object to build from (filled in when empty): the caller keeps
+    the very object the constructor was given, and can build a second column from it."""
     import numpy
     from orso.types import OrsoTypes
 
@@ -687,12 +689,19 @@ def build_column(schema, case, calls=None):
             return cls.from_dict(dict(own, **kw))
         return cls(**own, **kw)
 
+    def the_input():
+        if inp is None:
+            return build_input(case)
+        if not inp:
+            inp.append(build_input(case))
+        return inp[0]
+
     if enc == "rle":
-        return make(schema.RLEColumn, values=build_input(case))
+        return make(schema.RLEColumn, values=the_input())
     if enc == "dict":
-        return make(schema.DictionaryColumn, values=build_input(case))
+        return make(schema.DictionaryColumn, values=the_input())
     if enc == "sparse":
-        own = {"values": build_input(case)}
+        own = {"values": the_input()}
         if not case.get("omit_default"):
             d = fresh(case["default"])
             if "default_np" in case:
@@ -752,6 +761,26 @@ def build_decoy(schema, case):
         build_column(schema, c3).materialize()
 
 
+TWIN_MAX_LEN = 64
+
+
+def stored_aliasing(numpy, col, given):
+    """Names of the column's stored arrays that are the constructor's input or share memory with it."""
+    res = []
+    for name in ("values", "encoding", "indices", "lengths"):
+        try:
+            a = getattr(col, name, None)
+        except TypeError:  # (FunctionColumn.values)
+            continue
+        if a is None or len(a) == 0:
+            continue  # (an array without elements: nothing can be changed through it)
+        if a is given and isinstance(a, (list, numpy.ndarray)):
+            res.append("stored:%s is the input" % name)
+        elif isinstance(a, numpy.ndarray) and isinstance(given, numpy.ndarray) and numpy.shares_memory(a, given):
+            res.append("stored:" + name)
+    return res
+
+
 def aliasing(numpy, col, m, earlier):
     """How the expansion `m` is tied to anything but itself: names of the column's stored arrays it shares memory
     with, earlier expansions it shares memory with, elements sharing one cell (a zero-stride view), read-only."""
@@ -786,7 +815,17 @@ def run_impl(case):
         with warnings.catch_warnings():
             warnings.simplefilter("ignore")
             calls = []
-            col = build_column(schema, case, calls)
+            inp = []
+            col = build_column(schema, case, calls, inp)
+            # whose arrays does the column store?  (the unchanged tree builds every stored array anew)
+            twin = None
+            if inp:
+                out["stored_alias"] = stored_aliasing(numpy, col, inp[0])
+                if len(inp[0]) <= TWIN_MAX_LEN:
+                    out["input_before"] = canon(inp[0])
+                    # a second column from the very same input object; it is never touched
+                    twin = build_column(schema, case, None, inp)
+                    out["twin_before"] = canon(twin.materialize())
             out["attrs"] = [canon(col.length), canon(col.precision), canon(col.scale)]
             if enc == "rle":
                 out["values"], out["vkind"] = canon(col.values), kind_of(col.values)
@@ -827,6 +866,18 @@ def run_impl(case):
                 elif op == "imap:inc":
                     if len(col.values) or col.values.dtype.kind in "iuf":
                         col.values += 1
+                    out["mapped"] = canon(col.values)
+                elif op in ("uout:double", "uout:inc"):
+                    # the function through a ufunc that writes its result into the stored array
+                    if len(col.values) or col.values.dtype.kind in "iuf":
+                        if op == "uout:double":
+                            numpy.multiply(col.values, 2, out=col.values)
+                        else:
+                            numpy.add(col.values, 1, out=col.values)
+                    out["mapped"] = canon(col.values)
+                elif op.startswith("islice:"):
+                    # the function written into the stored array through a slice (`values[:] = f(values)`)
+                    col.values[:] = np_f(op[7:], col.values)
                     out["mapped"] = canon(col.values)
                 elif op.startswith("iset:"):
                     # the function written into the stored array item by item (`values[i] = f(values[i])`)
@@ -893,6 +944,10 @@ def run_impl(case):
             out["mat"], out["mkind"] = mats[-1]["mat"], mats[-1]["mkind"]
             # every expansion read again after all later uses of the column
             out["reread"] = [canon(m) for m in live]
+            if twin is not None:
+                # the untouched twin expanded again, the input read again
+                out["twin_after"] = canon(twin.materialize())
+                out["input_after"] = canon(inp[0])
             if enc == "func":
                 out["calls"] = len(calls)
                 # an impure binding (a counter): "its value repeated" means one value, however
@@ -1146,6 +1201,18 @@ def oracle(case, out):
         if got.get("alias"):
             return "an expansion is not an array of its own (shares memory with the stored form or another expansion, or is read-only) :: expansion %d: %s" % (
                 k, ", ".join(got["alias"]))
+    # the stored form is the column's own: what is done to one column's stored values reaches neither another column
+    # built from the same input sequence nor the input sequence itself (the unchanged tree copies in every constructor)
+    if "twin_after" in out and not wire.same(out["twin_after"], out["twin_before"]):
+        return ("a second column built from the same input sequence and never touched no longer expands to the original after the uses of "
+                "the first (the stored values are tied to the constructor's input) :: it expanded to %r, after the first column's uses to %r" % (
+                    out["twin_before"][:6], out["twin_after"][:6]))
+    if "input_after" in out and not wire.same(out["input_after"], out["input_before"]):
+        return "the input sequence itself was changed by the uses of the column built from it (the stored values are tied to the constructor's input) :: it was %r, afterwards %r" % (
+            out["input_before"][:6], out["input_after"][:6])
+    if out.get("stored_alias"):
+        return "the stored form is not the column's own (an array stored by the constructor is the input sequence or shares memory with it) :: %s" % (
+            ", ".join(out["stored_alias"]),)
     return None
 
 
@@ -1224,7 +1291,7 @@ def valid_case(c):
         if isinstance(c["value"], bytes):
             # bytes only as the value of a column declared BLOB (numpy's bytes dtype drops trailing NULs)
             if declared(c) in (False, (None, None)) or declared(c)[0] != "BLOB" or c["value"].endswith(b"\x00") \
-                    or f is not None or any(o.startswith(("map:", "imap:", "iset:", "edit:")) for o in c.get("ops", []) if isinstance(o, str)):
+                    or f is not None or any(o.startswith(("map:", "imap:", "iset:", "uout:", "islice:", "edit:")) for o in c.get("ops", []) if isinstance(o, str)):
                 return False
         elif not scalar_ok(c["value"]):
             return False
@@ -1252,7 +1319,7 @@ def valid_case(c):
             return False
         if f is not None and f not in MIX_FUNCS:
             return False
-        if any(isinstance(o, str) and o.startswith(("map:", "imap:")) and o[4:] not in MIX_FUNCS for o in c.get("ops", []) or []):
+        if any(isinstance(o, str) and o.startswith(("map:", "imap:", "uout:")) and o[4:] not in MIX_FUNCS for o in c.get("ops", []) or []):
             return False
         vs = values_of(c)
     else:
@@ -1972,6 +2039,41 @@ def session_correspondence(ctx, c, out):
                      {"first_expansion_at_the_end": want[0], "second_expansion": want[1]}, what="session on the heap model")
 
 
+def twin_correspondence(ctx, c, out):
+    """The heap model (`Enc.twinSession` with the origin of the stored values read off the constructor in the source)
+    against the implementation, on the cases that are exactly that history: two columns from one input ARRAY, one
+    in-place map of the first column's stored values, both expanded, the input read again."""
+    ops = c.get("ops")
+    if not ops or len(ops) != 2 or ops[1] != "mat" or c["enc"] not in ("rle", "dict", "sparse") or c.get("container") != "array":
+        return
+    f = map_fn(ops[0])
+    if f not in FUNCS or ops[0].startswith("map:") or set(c) - {"enc", "values", "default", "ops", "container"} or "twin_after" not in out:
+        return
+    xs = list(c["values"])
+    if not xs or any(isinstance(v, bytes) or v is None or (isinstance(v, str) and v.endswith("\x00")) for v in xs) \
+            or has_neg_zero(c) or any(is_nan(v) for v in xs) or (c["enc"] == "sparse" and k01_class(c)):
+        return
+    d = c.get("default")
+    if c["enc"] == "sparse":
+        # the value-level decoder: a dense column (nothing at the default: the shape in which the stored values are the
+        # whole sequence) whose default does not change the dtype of the expansion
+        if any(at_default(x, d) for x in xs) or not (d is None or type(d) is type(xs[0])):
+            return
+    line = "C09 twin " + wire.line(c["enc"], f, xs, d)
+    if line not in _SESSION_CACHE:
+        text = ctx.model.one(line)
+        if not text.startswith("ok"):
+            raise InfraError("model rejected the twin session %r: %r" % (c, text))
+        _SESSION_CACHE[line] = [canon(x) for x in wire.dec_all(text[2:])]
+    want = _SESSION_CACHE[line]
+    got = [out["mats"][-1]["mat"], out["twin_after"], out["input_after"]]
+    ctx.hit("twin-correspondence:" + c["enc"])
+    if not wire.same(got, want):
+        ctx.disagree(c, {"first_expansion": got[0], "untouched_twin_expansion": got[1], "input_at_the_end": got[2]},
+                     {"first_expansion": want[0], "untouched_twin_expansion": want[1], "input_at_the_end": want[2]},
+                     what="two columns over one input on the heap model")
+
+
 _CTOR_CACHE = {}
 DECIMAL_PS = re.compile(r"^DECIMAL\((\d{1,2}), ?(\d{1,2})\)$", re.I)
 
@@ -2112,6 +2214,7 @@ def evaluate(ctx, cases):
                 ctor_correspondence(ctx, c, out)
             if "ops" in c:
                 session_correspondence(ctx, c, out)
+                twin_correspondence(ctx, c, out)
 
 
 # --------------------------------------------------------------------------- generators
@@ -2239,6 +2342,36 @@ def scalar_cases():
                 if v is not None and type(v) is ty:
                     yield {"enc": "const", "value": v, "length": n, "type": t}
                     yield {"enc": "func", "value": v, "length": n, "type": t, "cfg": [7]}
+
+
+def shared_input_cases(nmax):
+    """Two columns over ONE input object (`run_impl` builds an untouched twin from the very object the first column
+    was given, for every case up to TWIN_MAX_LEN elements): every sequence of length 0..nmax over each alphabet, handed
+    over as numpy array / list / tuple, the first column's stored values changed in place in every form (`*=`, `+=`,
+    a ufunc with `out=`, item assignment, slice assignment, the original of a deep copy overwritten), then the twin
+    expanded and the input read again."""
+    for name, alpha in ALPHABETS:
+        for n in range(nmax + 1):
+            for seq in itertools.product(alpha, repeat=n):
+                vs = list(seq)
+                if not homogeneous(vs):
+                    continue
+                f = FUNC_OF[name] if f_applicable(FUNC_OF[name], vs) else None
+                bases = [{"enc": "rle", "values": vs}]
+                if None not in vs or len(vs) < 2:
+                    bases.append({"enc": "dict", "values": vs})
+                bases += [{"enc": "sparse", "values": vs, "default": d} for d in DEFAULTS_SEQ[name]]
+                seqs = [["imap:double", "mat"], ["mat", "imap:inc", "mat"], ["uout:double", "mat"], ["mat", "uout:inc", "mat"], ["copy", "mat"]]
+                if f in ("double", "upper", "not"):
+                    seqs += [["iset:" + f, "mat"], ["islice:" + f, "mat"], ["mat", "islice:" + f, "mat"]]
+                for b in bases:
+                    for cont in ("array", "list", "tuple"):
+                        if not container_ok(cont, vs):
+                            continue
+                        for ops in seqs:
+                            c = dict(b, ops=ops) if cont == "list" else dict(b, ops=ops, container=cont)
+                            if valid_case(c):
+                                yield c
 
 
 def sequence_cases(nmax):
@@ -2874,6 +3007,7 @@ def run(ctx):
     for n in range(core_n + 1):
         scope("exhaustive-length-%d" % n, exhaustive_level(n, n <= nmax_map))
     scope("sequences-of-uses", sequence_cases(nseq))
+    scope("shared-input", shared_input_cases(ctx.scale(2, 3)))
     scope("narrow-containers", narrow_cases(nnarrow))
     scope("mixed-classes", mixed_cases(*ctx.scale((3, 2), (4, 3))))
     scope("extreme-floats", extreme_float_cases(ctx.scale(3, 4)))
